@@ -1,10 +1,85 @@
-import RgVerif.Model.Sx
+import RgVerif.Spec.Utf16
 namespace RgVerif.Driver.C17
-open RgVerif
+open RgVerif RgVerif.Decode RgVerif.Utf16Spec
 
-/-- Request handler of property C17: `cmd` is the first token of the line, `args` the rest. -/
+/-
+Requests (LABEL = none | utf8 | utf16le | utf16be | latin1; SNIFF = 0|1)
+  c17.reader (cfg LABEL SNIFF) (chunks hex…)   -> hex   bytes the searcher reads through DecodeReaderBytes
+  c17.slice  (cfg LABEL SNIFF) hex              -> hex   bytes search_slice searches
+  c17.spec   (cfg LABEL SNIFF) hex              -> hex   the contract: UTF-8 equivalent
+  c17.guard  (cfg LABEL SNIFF) hex              -> ok | f13 | label | second    (complement classes of c17Guard)
+  c17.dec16  BE (chunks hex…)                   -> hex   the streaming UTF-16 machine
+  c17.spec16 BE hex                             -> hex   whole-string UTF-16 specification (own mark removed)
+The UTF-8 and windows-1252 decoders are run as "buffer everything, transcode at the end" machines
+(their streaming behaviour is encoding_rs', validated by the harness against the real code).
+-/
+
+def other : Nat → Bytes → Bytes
+  | 0 => transcode1252
+  | _ => fun bs => bs
+
+/-- buffers the input (reversed, so that a step is O(1)) and transcodes at the end -/
+def bufferAll (f : Bytes → Bytes) : Machine :=
+  { σ := Bytes, init := [], step := fun s b => (b :: s, []), finish := fun s => f s.reverse }
+
+def M : Enc → Machine :=
+  machines (bufferAll fun bs => transcode8 (if ownMark .utf8 bs then bs.drop 3 else bs))
+    (fun id => bufferAll (other id))
+
+def parseLabel : Sx → Option (Option Enc)
+  | .atom "none" => some none
+  | .atom "utf8" => some (some .utf8)
+  | .atom "utf16le" => some (some .utf16le)
+  | .atom "utf16be" => some (some .utf16be)
+  | .atom "latin1" => some (some (.other 0))
+  | _ => none
+
+def parseCfg : Sx → Option Cfg
+  | .list [.atom "cfg", l, s] => do pure ⟨(← parseLabel l), (← s.bool?)⟩
+  | _ => none
+
+def parseChunks : Sx → Option (List Bytes)
+  | .list (.atom "chunks" :: cs) => cs.mapM Sx.bytes?
+  | _ => none
+
+/-- which clause of `c17Guard` fails -/
+def guardClass (c : Cfg) (bs : Bytes) : String :=
+  if c17Guard c bs then "ok"
+  else if !c.bomSniffing then "second"
+  else match bomOf bs with
+    | some (.utf8, n) =>
+      match c.label with
+      | none => "f13"
+      | some .utf8 => "second"
+      | some _ => "label"
+    | _ => "second"
+
 def handle (cmd : String) (args : List Sx) : String :=
   match cmd, args with
+  | "c17.reader", [cfg, chunks] =>
+    match parseCfg cfg, parseChunks chunks with
+    | some c, some chunks => toHex (readerOutput c M chunks)
+    | _, _ => "bad-op"
+  | "c17.slice", [cfg, bs] =>
+    match parseCfg cfg, bs.bytes? with
+    | some c, some bs => toHex (sliceSearched c M bs)
+    | _, _ => "bad-op"
+  | "c17.spec", [cfg, bs] =>
+    match parseCfg cfg, bs.bytes? with
+    | some c, some bs => toHex (searched other c bs)
+    | _, _ => "bad-op"
+  | "c17.guard", [cfg, bs] =>
+    match parseCfg cfg, bs.bytes? with
+    | some c, some bs => guardClass c bs
+    | _, _ => "bad-op"
+  | "c17.dec16", [be, chunks] =>
+    match be.bool?, parseChunks chunks with
+    | some be, some chunks => toHex ((utf16Machine be).decode chunks)
+    | _, _ => "bad-op"
+  | "c17.spec16", [be, bs] =>
+    match be.bool?, bs.bytes? with
+    | some be, some bs => toHex (decode16 be bs)
+    | _, _ => "bad-op"
   | _, _ => "bad-op"
 
 end RgVerif.Driver.C17
